@@ -222,8 +222,8 @@ impl Prop for C02 {
     }
     fn work(&self, tier: Tier) -> Work {
         match tier {
-            Tier::Quick => Work { cases_per_worker: 1500, workers: 8 },
-            Tier::Thorough => Work { cases_per_worker: 50_000, workers: 16 },
+            Tier::Quick => Work { cases_per_worker: 7500, workers: 8 },
+            Tier::Thorough => Work { cases_per_worker: 200000, workers: 16 },
         }
     }
     fn strategy(&self, _tier: Tier) -> BoxedStrategy<CScenario> {
